@@ -303,5 +303,6 @@ func main() {
 		}
 		emit(c, pages, cls)
 	}
+	sessionTier(r, out, tier)
 	out.Close(nil)
 }
